@@ -472,10 +472,12 @@ def _check_result(ctx, case, A, M, info, maxiters, l0, s0, min_len=1, obj_rtol=1
             v = np.ravel(np.asarray(info[key], dtype=float))
             ctx.check(bool(np.all(v >= 0)), "per-iteration-outputs-nonnegative", f"{key}: {v}")
     # at least as likely as the guess
-    if case["alg"] == "mu" and case.get("gclass") == "some-tiny" and _guess_below_eps_at_a_count(case, A):
-        # MU divides by max(model value, epsDivZero): where the guess puts less than epsDivZero on a positive count the
-        # update is the documented safeguarded step, not an EM step, and need not increase the likelihood
-        ctx.label("mu-guess-below-epsDivZero-at-a-count")
+    if _guess_below_eps_at_a_count(case, A):
+        # all three solvers divide by max(model value, epsDivZero): where the guess puts less than epsDivZero on a
+        # positive count the update is the documented safeguarded step, not an ascent step of the likelihood, and
+        # need not increase it (seen at thorough budgets with guesses that are nearly an identity: entries 1e-9
+        # next to epsDivZero 1e-3, and for pdnr / pqnr as well as mu)
+        ctx.label(case["alg"] + "-guess-below-epsDivZero-at-a-count")
     elif np.isfinite(l0):
         ok = (want >= l0 - obj_rtol * (s0 + (scale if np.isfinite(scale) else 0.0))) if not np.isnan(want) else False
         ctx.check(ok, "at-least-as-likely-as-guess", f"result {want!r} < guess {l0!r}")
